@@ -275,7 +275,7 @@ def e2e(ck, info, n_cases, state):
     for d in ds:
         op, i, pred = d['op'], d['ind'], d['predicate']
         hist[(op, pred)] = hist.get((op, pred), 0) + 1
-        if pred == 'raw-error' and d['got'] and d['got'][0] == 'Timeout':
+        if pred == 'raw-error' and d['got'] and (d['got'][0] == 'Timeout' or 'wall-clock guard' in str(d['got'])):
             ck.note('e2e_timeouts', ck.cov.get('e2e_timeouts', 0) + 1); continue
         known = fixed_limit_in_force(info, i) and d.get('model_predicts')
         if op in ('timeshift', 'timeshift_roundtrip') and known:
